@@ -7,7 +7,7 @@ THEOREMS = ["Mmtk.Heap.reachFrom_iff", "Mmtk.Heap.reach_iff", "Mmtk.Heap.reachAu
             # the abstract algorithm (every schedule / every history), package algo
             "Mmtk.Trace.trace_step_decreases", "Mmtk.Trace.trace_terminates", "Mmtk.Trace.trace_completes", "Mmtk.Trace.trace_reach_exact", "Mmtk.Trace.trace_injective", "Mmtk.Trace.trace_iso", "Mmtk.Trace.trace_onto", "Mmtk.Trace.trace_iso_snap", "Mmtk.Trace.trace_still_reachable", "Mmtk.Trace.trace_identity", "Mmtk.Trace.trace_schedule_independent", "Mmtk.Trace.twoPhase_iso", "Mmtk.Trace.slide_injective", "Mmtk.Trace.slide_nonoverlap", "Mmtk.Trace.slide_le", "Mmtk.Trace.markCompact_iso"]
 META = {
-    "text": "Shadow-heap model (Model/Heap.lean) + snapshot monitor `gcm` (Driver/GCMon): the executable worklist closure `reach` is proved sound and complete w.r.t. the inductive reachability relation for every heap (fuel = #objects + 1), monotone in the roots, every mutator op preserves well-formedness, and a snapshot accepted by `checkSnap` lists exactly the reachable ids once each with the shadow heap's size / payload hash / fields-as-ids / root slots. Real collections: generated mutator programs (sharing hubs, cycles, 10^3-10^4-long lists, wide objects, old->young stores, several mutators, user + natural GCs) run on a real MMTk instance (hx_gc, all 11 plans x {1,4} workers); after every pause the real heap is walked from the real roots and compared by the Lean monitor; an independent Python oracle re-evaluates the comparison.",
+    "text": "Shadow-heap model (Model/Heap.lean) + snapshot monitor `gcm` (Driver/GCMon): the executable worklist closure `reach` is proved sound and complete w.r.t. the inductive reachability relation for every heap (fuel = #objects + 1), monotone in the roots, every mutator op preserves well-formedness, and a snapshot accepted by `checkSnap` lists exactly the reachable ids once each with the shadow heap's size / payload hash / fields-as-ids / root slots. Real collections: generated mutator programs (sharing hubs, cycles, 10^3-10^4-long lists, wide objects, old->young stores, several mutators, mutators destroyed while they hold roots and a non-empty write-barrier buffer followed by a nursery GC, user + natural GCs) run on a real MMTk instance (hx_gc, all 11 plans x {1,4} workers); after every pause the real heap is walked from the real roots and compared by the Lean monitor; an independent Python oracle re-evaluates the comparison.",
     "note": "Level: proof of the monitor's model, partial w.r.t. the code (the collector itself is sampled, not proved; the abstract algorithm theorems go in the section `algorithm` of Props/C01.lean). Known defects are kept out of the random stream and reported by dedicated corpus programs under stable keys gc:nonmoving-default-trace, gc:nonmoving-gen-lost, gc:compressor-immortal-fwd, gc:markcompact-empty, gc:markcompact-nonmoving-dead.",
     "technique": "Lean 4 proof (graph closure, invariants) + run-time verification of real GC runs by the proved monitor + independent oracle",
     "category": "proof",
